@@ -292,7 +292,13 @@ async fn handle_udp_relay_header(
             warn!("Fragmented UDP packets are not implemented");
             Ok(None)
         }
-        Err(e) => Err(Error::Socks(e)),
+        Err(e) => {
+            // RFC 1928 section 7: a relay silently drops the datagrams it cannot or will not
+            // relay. Ending the relay here would take the whole association down with one
+            // malformed datagram, whoever sent it.
+            warn!("Dropping a malformed UDP relay request from {addr}: {e}");
+            Ok(None)
+        }
         Ok((dst, port, buf)) => {
             trace!("Parsed packet: dst {dst:?} port {port}");
             Ok(Some((dst, port, buf, addr.ip(), addr.port())))
